@@ -1,7 +1,3 @@
-//@nopub
-//@include ioerr.rs
-//@include error.rs
-//@include dev.rs
 
 //@item src/paged_writer.rs const PAGE_SIZE
 //@enditem
